@@ -38,7 +38,9 @@
    `q[p]` is the controller-runtime work queue: a key is queued by a create/update event of the BindRequest,
    by a returned error and by RequeueAfter > 0; only queued keys are reconciled.
    `att`, `fl` are ghost counters of the current BindRequest incarnation: calls of the binding sub-resource
-   and failed reconciles.  backoffLimit: lim = -1 stands for nil.                                            *)
+   and failed reconciles.  `leaks` counts the attempts that left GPU group labels behind without a rollback
+   ("faillabel", "panic" of a fraction pod) and is bounded by MaxLeaks; refused cycles and panics of whole-GPU
+   pods need no counter (a refused cycle adds no request, every panic uses up one retry of the request).  backoffLimit: lim = -1 stands for nil.                                            *)
 EXTENDS Integers, FiniteSets, Sequences, TLC, Json
 
 CONSTANTS Pods,          \* set of pod names (strings)
@@ -184,9 +186,10 @@ BinderRuns(s, p, out, rule) ==
          \* UpdateStatus swallows the error when it patches nothing; the error of a recovered panic is always returned
          err |-> (changed /\ errc) \/ panic, rq |-> IF inc THEN Pow2(b.fa) ELSE 0, bind |-> bindCalled] : L \in labs}
 
-\* The model (and the schedule generators) let Bind panic only while the request is not terminally failed: a panic on
-\* a terminally failed request returns an error again (re-queue), the harness can replay such a step (EnabledIn of
-\* HandoffTrace only asks for Reach) but it is outside the environment the C12 bounds are stated for.
+\* Environment: Bind panics only while the request is not terminally failed.  A panic on a terminally failed request
+\* returns an error again (re-queue; BinderRuns describes it), so the attempts are not bounded as long as Bind keeps
+\* panicking and no scheduler cycle deletes the request.  The harness skips such a step like any step that is not
+\* enabled (flag -panic-terminal executes it: reproduction of that behaviour on the real reconciler).
 PanicEnabled(s, p) == Reach(s, p) /\ ~Terminal(s.br[p], s.lim)
 StatusLostEnabled(s, p) == s.q[p] /\ Reach(s, p)
 StatusLostPost(s, p) == [s EXCEPT !.bound[p] = TRUE, !.att[p] = Sat(s.att[p] + 1), !.q[p] = FALSE,
